@@ -115,7 +115,9 @@ static int reassemble(struct websocket *s, uint8_t *msg, size_t length)
 			write_int_to_array(strm->next_in, next_size);
 		}
 		unsigned int write_offset = read_int_from_array(strm->next_in) - strm->avail_in;
-		memcpy(strm->next_in + write_offset, msg, length);
+		if (length > 0) {
+			memcpy(strm->next_in + write_offset, msg, length);
+		}
 		strm->avail_in -= length;
 	}
 	return 0;
@@ -134,7 +136,10 @@ static enum websocket_callback_return private_decompress(struct websocket *s, ui
 		strm->next_in = Z_NULL;
 		return WS_ERROR;
 	}
-	memcpy(in, msg, length);
+	if (length > 0) {
+		/* An empty payload is handed over as (NULL, 0). */
+		memcpy(in, msg, length);
+	}
 	in[length] = 0x00;
 	in[length + 1] = 0x00;
 	in[length + 2] = 0xFF;
